@@ -167,6 +167,12 @@ def gen_cases(ctx):
         # infinite source with early exit
         for k in [1, P, P + 3]:
             cases.append({"T": T, "n": None, "stop_after": k, "seed": rng.randrange(1 << 30), "reuse": True})
+    # many worker threads (more cores than any fixed cap an implementation might have): full passes, an early exit, a failure
+    for T in ([33, 48] if not ctx.thorough else [17, 33, 48, 65]):
+        for n in (0, 1, 2 * T + 3):
+            cases.append({"T": T, "n": n, "seed": rng.randrange(1 << 30), "reuse": n == 1})
+        cases.append({"T": T, "n": 3 * T, "stop_after": 2, "seed": rng.randrange(1 << 30), "reuse": False})
+        cases.append({"T": T, "n": T + 5, "fail": [1], "seed": rng.randrange(1 << 30), "reuse": False})
     # thread-count arguments that the constructor clamps to a single worker
     for arg in (None, 0, -1, -3):
         for n in (0, 1, 5):
